@@ -49,12 +49,12 @@ ASSUMPTIONS = [
 ]
 FLOORS = {
     'quick': {
-        'outcomes': 3000, 'evaluations': 250000, 'counter:number.rewritten': 50000, 'counter:zero.unit-dropped': 1000,
+        'outcomes': 3000, 'evaluations': 250000, 'counter:number.rewritten': 50000, 'counter:zero.unit-dropped': 200,
         'counter:hash.shortened': 4000, 'counter:hash.kept-long': 10000, 'counter:string.requoted': 5000,
         'counter:url.quoted-by-serialiser': 1000, 'set:sepseq': 13, 'set:kinds': 7,
     },
     'thorough': {
-        'outcomes': 5000, 'evaluations': 2500000, 'counter:number.rewritten': 500000, 'counter:zero.unit-dropped': 1000,
+        'outcomes': 5000, 'evaluations': 2500000, 'counter:number.rewritten': 500000, 'counter:zero.unit-dropped': 200,
         'counter:hash.shortened': 4000, 'counter:hash.kept-long': 100000, 'counter:string.requoted': 5000,
         'counter:url.quoted-by-serialiser': 1000, 'set:sepseq': 13, 'set:kinds': 7,
     },
@@ -71,11 +71,13 @@ SPARSE = '0159'
 HEXD = '0123456789abcdef'
 HEX5 = '018aF'
 SIGMA = ['a', '1', ' ', '"', "'", '\\', '(', ')', '\n', '\t', 'é', ';', '{', '}', '/', '*', ',', '-']
-CLASSNAME = {
-    'a': 'letter', '1': 'digit', ' ': 'space', '"': 'dquote', "'": 'squote', '\\': 'backslash', '(': 'lparen', ')': 'rparen',
-    '\n': 'newline', '\t': 'tab', 'é': 'nonascii', ';': 'semicolon', '{': 'lbrace', '}': 'rbrace', '/': 'slash', '*': 'star',
-    ',': 'comma', '-': 'minus',
+# role of a character in the quoting / escaping rules of CSS; the essential set of a string / URL finding is a set of roles
+ROLE = {
+    'a': 'plain', '1': 'plain', 'é': 'plain', ' ': 'blank', '\t': 'blank', '"': 'dquote', "'": 'squote', '\\': 'backslash',
+    '(': 'paren', ')': 'paren', '\n': 'linebreak', ';': 'punctuation', '{': 'punctuation', '}': 'punctuation', '/': 'punctuation',
+    '*': 'punctuation', ',': 'punctuation', '-': 'punctuation',
 }
+ROLES = ['backslash', 'dquote', 'squote', 'linebreak', 'blank', 'paren', 'punctuation']
 STR_FORMS = ['dq', 'sq']
 URL_FORMS = ['bare', 'dq', 'sq']
 RGB_N = ['0', '1', '127', '128', '255', '256', '-1']
@@ -355,6 +357,14 @@ def _jd(d):
     return [_fr(x) if not isinstance(x, tuple) else [_fr(y) for y in x] for x in d] if d is not None else None
 
 
+def _escaped_spelling_of(text, content):
+    """the accessor may hand out the content with backslash escapes still in place (see ASSUMPTIONS)"""
+    try:
+        return isinstance(text, str) and RV.unescape(text, True) == content
+    except RV.ScanError:
+        return False
+
+
 def _judge_accessors(case, want, acc, out, path, stats):
     """C18.accessor: typed accessors against the denotation of the source"""
     comps = case['comps']
@@ -400,7 +410,7 @@ def _judge_accessors(case, want, acc, out, path, stats):
         elif kind in ('str', 'url', 'ident'):
             if a[0] != kind:
                 out.append(V('C18.accessor', f'{kind}|type', kind, a[0], path=path))
-            elif a[1] != w[1]:
+            elif a[1] != w[1] and not (kind != 'ident' and _escaped_spelling_of(a[1], w[1])):
                 out.append(V('C18.accessor', f'{kind}|content', w[1], a[1], path=path))
 
 
@@ -414,12 +424,13 @@ def _judge_ser(case, want, ser, prefs, out, path, stats):
     try:
         scomps, sseps = RV.components(ser)
     except RV.ScanError as e:
-        out.append(V(fam_clause, 'serialisation-is-not-a-value', spell(case), ser, prefs, path, extra=str(e)))
+        out.append(V(fam_clause, 'serialisation-broken', spell(case), ser, prefs, path, extra='not a value: ' + str(e)))
         return
     wseps = [SEP_KIND[s] for s in case['seps']]
     gseps = [SEP_KIND[s] for s in sseps]
     if len(scomps) != len(comps):
-        out.append(V(fam_clause if family != 'seq' else 'C18.separators', f'component-count|{len(comps)}-became-{len(scomps)}', spell(case), ser, prefs, path))
+        sym = 'serialisation-broken' if family != 'seq' else f'component-count|{len(comps)}-became-{len(scomps)}'
+        out.append(V(fam_clause, sym, spell(case), ser, prefs, path, extra=f'{len(comps)} component(s) became {len(scomps)}'))
         return
     if gseps != wseps:
         i = next(j for j in range(len(wseps)) if gseps[j] != wseps[j])
@@ -431,7 +442,8 @@ def _judge_ser(case, want, ser, prefs, out, path, stats):
         if stats is not None and family == 'seq':
             stats.clauses[clause] += 1
         if g[0] != kind:
-            out.append(V(clause, f'kind-changed|{kind}-became-{g[0]}', spell_comp(comps[i]), sc[-1], prefs, path))
+            sym = 'serialisation-broken' if family in ('string', 'url') else f'kind-changed|{kind}-became-{g[0]}'
+            out.append(V(clause, sym, spell_comp(comps[i]), sc[-1], prefs, path, extra=f'{kind} became {g[0]}'))
             continue
         if kind == 'num':
             if stats is not None:
@@ -545,8 +557,10 @@ def raw(case, stats=None, sheet_rt=True):
             obs1 = (acc, sers)
             _judge_accessors(case, want, acc, out, 'value', stats)
             for prefs, ser in zip(prefsets, sers):
+                n0 = len(out)
                 _judge_ser(case, want, ser, prefs, out, 'value', stats)
-                _judge_fixpoint(case, acc, ser, prefs, out, 'value', stats, cache)
+                if len(out) == n0:  # a serialisation that already denotes something else has no round trip to speak of
+                    _judge_fixpoint(case, acc, ser, prefs, out, 'value', stats, cache)
             if stats is not None:
                 _coverage(stats, case, text, acc, sers)
         # entry point 2: the same text as a declaration value in a sheet
@@ -563,12 +577,14 @@ def raw(case, stats=None, sheet_rt=True):
                 # not the same object as entry point 1 produced: judge it in full
                 _judge_accessors(case, want, acc2, out, 'sheet', stats)
                 for prefs, ser in zip(prefsets, sers2):
+                    n0 = len(out)
                     _judge_ser(case, want, ser, prefs, out, 'sheet', stats)
-                    _judge_fixpoint(case, acc2, ser, prefs, out, 'sheet', stats, cache)
+                    if len(out) == n0:
+                        _judge_fixpoint(case, acc2, ser, prefs, out, 'sheet', stats, cache)
                 if stats is not None:
                     stats.counters['sheet-entry-differs'] += 1
             # the whole sheet round trip (default preferences)
-            if not sheet_rt:
+            if not sheet_rt or any(v.clause != 'C18.accessor' for v in out):
                 return out
             if stats is not None:
                 stats.clauses['C18.fixpoint'] += 1
@@ -645,8 +661,8 @@ def _coverage(stats, case, text, acc, sers):
 # signatures: symptom + essential ingredients (one-step counterfactuals on the abstract case)
 
 
-def _shows(case, clause, symptom):
-    return any(v.clause == clause and v.symptom == symptom for v in raw(case))
+def _shows(case, clause, symptom=None):
+    return any(v.clause == clause and (symptom is None or v.symptom == symptom) for v in raw(case))
 
 
 def _int_class(i):
@@ -678,19 +694,26 @@ def essential(case, v):
                 if not _shows(dict(pinned, prefs={}), v.clause, v.symptom):
                     ess.append(f'{k}={val}')
     elif family in ('string', 'url'):
+        # roles of characters (all characters of a role replaced by "a" at once) and quoting forms without which no
+        # violation of this clause is left
         c = case['comps'][0]
         content = c[1]
-        classes = []
-        for ch in sorted(set(content), key=SIGMA.index):
-            if ch == 'a':
+        roles = []
+        for role in ROLES:
+            if not any(ROLE[ch] == role for ch in content):
                 continue
-            neutral = content.replace(ch, 'a')
-            if not _shows(dict(pinned, comps=[[c[0], neutral, c[2]]]), v.clause, v.symptom):
-                classes.append(CLASSNAME[ch])
-        ess.append('chars=' + ('+'.join(classes) if classes else 'none-alone'))
+            neutral = ''.join('a' if ROLE[ch] == role else ch for ch in content)
+            if not _shows(dict(pinned, comps=[[c[0], neutral, c[2]]]), v.clause):
+                roles.append(role)
+        if not roles and any(ROLE[ch] != 'plain' for ch in content):
+            # every variant with one role neutralised still violates the clause: two overlapping causes.  Each of those
+            # variants is itself a member of the enumerated space (the alphabet contains "a") and is reported with its own,
+            # more specific signature, so this witness adds nothing but a signature that depends on the overlap.
+            return None
+        ess.append('needs=' + ('+'.join(roles) if roles else 'nothing'))
         forms = STR_FORMS if family == 'string' else URL_FORMS
         others = [f for f in forms if f != c[2]]
-        if all(_shows(dict(pinned, comps=[[c[0], content, f]]), v.clause, v.symptom) for f in others):
+        if all(_shows(dict(pinned, comps=[[c[0], content, f]]), v.clause) for f in others):
             ess.append('form=any')
         else:
             ess.append(f'form={c[2]}')
@@ -707,14 +730,18 @@ def evaluate(res, case, sheet_rt=True):
     vs = raw(case, res, sheet_rt)
     if not vs:
         return
+    if any(v.path == 'value' for v in vs):
+        # what the sheet entry point adds is only reported for values the plain entry point handles correctly
+        vs = [v for v in vs if v.path == 'value']
     seen = set()
     for v in vs:
-        if v.path == 'sheet' and (v.clause, v.symptom, 'value') in seen:
+        if (v.clause, v.symptom) in seen:
             continue
-        if (v.clause, v.symptom, v.path) in seen:
-            continue
-        seen.add((v.clause, v.symptom, v.path))
+        seen.add((v.clause, v.symptom))
         ess = essential(case, v)
+        if ess is None:
+            res.counters['violations.explained-by-simpler-witnesses'] += 1
+            continue
         sig = v.symptom + ('|' + ess if ess else '')
         wcase = dict(case, prefs=v.prefs if v.prefs is not None else PREFS[case['family']][0])
         text = spell(case)
